@@ -68,7 +68,7 @@ const LAWS_COLS: &[&str] =
     &["aa", "ab", "ba", "bc", "ac", "ltab", "leab", "gtab", "geab", "gtba", "geba", "ltbc", "lebc", "ltac", "leac"];
 
 /// the eight law verdicts from the fifteen raw three-valued results (same function in Driver/Value.lean)
-pub fn law_verdicts(r: &[char], clean_a: bool, clean_b: bool) -> String {
+pub fn law_verdicts(r: &[char], clean_a: bool, clean_b: bool, clean_c: bool) -> String {
     let (aa, ab, ba, bc, ac) = (r[0], r[1], r[2], r[3], r[4]);
     let (ltab, leab, gtab, geab, gtba, geba, ltbc, lebc, ltac, leac) = (r[5], r[6], r[7], r[8], r[9], r[10], r[11], r[12], r[13], r[14]);
     let b = |x: bool| if x { '1' } else { '0' };
@@ -93,10 +93,11 @@ pub fn law_verdicts(r: &[char], clean_a: bool, clean_b: bool) -> String {
     } else {
         '-'
     });
-    // 7 `<` transitive
-    out.push(if ltab == 'T' && ltbc == 'T' { b(ltac == 'T') } else { '-' });
+    // 7 `<` transitive (on null/NaN-free values)
+    let clean3 = clean_a && clean_b && clean_c;
+    out.push(if clean3 && ltab == 'T' && ltbc == 'T' { b(ltac == 'T') } else { '-' });
     // 8 `<=` transitive
-    out.push(if leab == 'T' && lebc == 'T' { b(leac == 'T') } else { '-' });
+    out.push(if clean3 && leab == 'T' && lebc == 'T' { b(leac == 'T') } else { '-' });
     out.iter().map(|c| c.to_string()).collect::<Vec<_>>().join(" ")
 }
 
@@ -138,12 +139,12 @@ impl State for S {
                 if !vtok::oracle_ok(&[&a, &b, &c], &orc) {
                     return "bad-oracle".into();
                 }
-                let (ca, cb) = (clean(&a), clean(&b));
+                let (ca, cb, cc) = (clean(&a), clean(&b), clean(&c));
                 match ENG.with(|e| e.run(LAWS_Q, &[("a", a), ("b", b), ("c", c)])) {
                     Ok(rows) if rows.len() == 1 => {
                         let r: Vec<char> =
                             LAWS_COLS.iter().map(|c| rows[0].get(c).map(tri).unwrap_or('?')).collect();
-                        format!("{} | {}", law_verdicts(&r, ca, cb), r.iter().collect::<String>())
+                        format!("{} | {}", law_verdicts(&r, ca, cb, cc), r.iter().collect::<String>())
                     }
                     Ok(rows) => format!("err rows{}", rows.len()),
                     Err(e) => format!("err {}", err_class(&e)),
